@@ -1,5 +1,6 @@
 import NbioVerif.Lemmas.C07Msg
 import NbioVerif.Lemmas.C07Glue
+import NbioVerif.Lemmas.C06Chain
 /-! C07: HTTP parsing agrees with the reference on well-formed messages (model level).
 
 The message grammar (`Msg`, `Msg.render`, `eventsOf`, `wfMsg`, `reqSpec`/`respSpec`, the two RFC 7230 decision
@@ -71,6 +72,47 @@ theorem c07_impl_any_segmentation (g : Cfg) (ms : List Msg) (segs : List Bytes)
   have hg : Good (machine g) (init g) [] := fun n hn => (wf g).pos _ _ hn
   rw [feedAll_eq_spec (machine g) (wf g) segs (init g) [] [] hg, hsegs]
   simpa [specFeed] using e
+
+/-- **C07 for the function the driver runs** (`feedAllL` = chain of `parseLC`: ReadLimit test disabled, checked loop):
+    the same statement; `feedAllL … 0 = feedAll` by `Scan.feedAllL_eq_feedAll`. -/
+theorem c07_driver_any_segmentation (g : Cfg) (ms : List Msg) (segs : List Bytes)
+    (hsegs : segs.flatten = (ms.map Msg.render).flatten)
+    (hall : ∀ m ∈ ms, wfMsg m = true ∧ roleOk g m ∧ (g.maxBody = 0 ∨ m.body.bytes.length ≤ g.maxBody)) :
+    ∃ p', Idle g p' ∧
+      feedAllL (machine g) 0 (init g) [] segs [] = ⟨(ms.map eventsOf).flatten, .inl (p', [])⟩ := by
+  obtain ⟨p', hI, e⟩ := c07_impl_any_segmentation g ms segs hsegs hall
+  exact ⟨p', hI, by rw [feedAllL_eq_feedAll _ _ _ _ _ _ (noTrip_zero _ _ _ _ _), e]⟩
+
+theorem filterMap_req_flatten (ms : List Msg) :
+    ((ms.map fun m => (reqSpec m).toList.map Delivered.req).flatten).filterMap
+        (fun | .req r => some r | _ => none) = ms.filterMap reqSpec := by
+  induction ms with
+  | nil => rfl
+  | cons m ms ih =>
+    simp only [List.map_cons, List.flatten_cons, List.filterMap_append, List.filterMap_cons, ih]
+    cases reqSpec m <;> simp [Option.toList]
+
+/-- **C07 pipelined, delivered level, server.** Any segmentation of the concatenated renderings of well-formed
+    requests, run through the driver's chain and the processor logic, hands the handler exactly the `reqSpec`s, in order. -/
+theorem c07_requests_pipelined (g : Cfg) (ms : List Msg) (segs : List Bytes)
+    (hsegs : segs.flatten = (ms.map Msg.render).flatten)
+    (hall : ∀ m ∈ ms, wfMsg m = true ∧ roleOk g m ∧ (g.maxBody = 0 ∨ m.body.bytes.length ≤ g.maxBody))
+    (hreq : ∀ m ∈ ms, ∃ me t pr, m.start = .request me t pr) :
+    requestsOf (feedAllL (machine g) 0 (init g) [] segs []).evs = ms.filterMap reqSpec := by
+  obtain ⟨p', _, e⟩ := c07_driver_any_segmentation g ms segs hsegs hall
+  rw [e]
+  simp only [requestsOf, deliveredOf, procRun_requests ms (fun m hm => ⟨(hall m hm).1, hreq m hm⟩)]
+  exact filterMap_req_flatten ms
+
+/-- **C07 (header lookup, representation independent).** For a delivered request, what the handler finds under any
+    header name is the list of that field's values in arrival order — a `filter` over the message's fields; no multimap
+    construction is shared between the two sides of this statement. -/
+theorem c07_header_lookup (m : Msg) (r : Req) (h : reqSpec m = some r) (k : Bytes) :
+    r.header.get k = (m.fields.filter (fun kv => kv.1 == k)).map (·.2) := by
+  unfold reqSpec at h
+  split at h
+  · cases h; exact header_lookup m.fields k
+  · cases h
 
 /-- **C07 (delivered request).** What the handler receives for the events of a well-formed request is `reqSpec m`:
     method, target, version, Host from the Host field, the header multimap with canonical names, the declared length,
